@@ -103,3 +103,79 @@ def report_record_mutations(idx: ProgramIndex, rep, prop: str, rule: str) -> Non
                               "existing operator: every later clone / detach / to / representation_tree rebuild of that operator "
                               "uses the modified record, i.e. denotes a different matrix (and the effect depends on call order)",
                               fn.loc(node)))
+
+
+# ------------------------------------------------------------------------------------------------
+# container-valued denotation attributes (self.sizes = list(sizes), self.params = {...}) are part of what the operator
+# denotes: a method that mutates one - directly or through an un-copied local alias - changes an EXISTING operator
+CONTAINER_CTORS = ("list(", "[", "dict(", "{", "OrderedDict(", "set(", "sorted(")
+
+
+def find_denotation_container_mutations(idx: ProgramIndex):
+    from .ctor import ctor_record
+
+    out = []
+    n_attrs = 0
+    for c in idx.operator_classes():
+        rec = ctor_record(idx, c)
+        if rec.init is None:
+            continue
+        cont = {a for a, src in rec.attr_sources.items() if src and rec.attr_exprs.get(a, "").lstrip().startswith(CONTAINER_CTORS)}
+        if not cont:
+            continue
+        n_attrs += len(cont)
+        for mname, fn in c.methods.items():
+            if mname == "__init__" or fn.is_staticmethod() or fn.is_classmethod() or not fn.params():
+                continue
+            sn = fn.params()[0]
+
+            def is_attr(e):
+                return isinstance(e, ast.Attribute) and isinstance(e.value, ast.Name) and e.value.id == sn and e.attr in cont
+
+            alias = {n.targets[0].id: n.value.attr for n in walk_body(fn)
+                     if isinstance(n, ast.Assign) and len(n.targets) == 1 and isinstance(n.targets[0], ast.Name) and is_attr(n.value)}
+            # an alias that is also re-bound to something else is not tracked (flow-insensitive; stays silent)
+            for nm in list(alias):
+                defs = [n for n in walk_body(fn) if isinstance(n, ast.Assign) and any(isinstance(t, ast.Name) and t.id == nm for t in n.targets)]
+                if len(defs) != 1:
+                    del alias[nm]
+
+            def held(e):
+                if is_attr(e):
+                    return e.attr
+                if isinstance(e, ast.Name) and e.id in alias:
+                    return alias[e.id]
+                return None
+
+            for n in walk_body(fn):
+                hit = None
+                if isinstance(n, ast.Call) and isinstance(n.func, ast.Attribute) and n.func.attr in MUTATORS and held(n.func.value):
+                    hit = (held(n.func.value), f"{norm(n.func.value)}.{n.func.attr}(...)")
+                elif isinstance(n, (ast.Assign, ast.AugAssign)):
+                    tgts = n.targets if isinstance(n, ast.Assign) else [n.target]
+                    flat = []
+                    for t in tgts:
+                        flat += list(t.elts) if isinstance(t, (ast.Tuple, ast.List)) else [t]
+                    for t in flat:
+                        if isinstance(t, ast.Subscript) and held(t.value):
+                            hit = (held(t.value), f"{norm(t.value)}[...] = ...")
+                elif isinstance(n, ast.Delete):
+                    for t in n.targets:
+                        if isinstance(t, ast.Subscript) and held(t.value):
+                            hit = (held(t.value), f"del {norm(t.value)}[...]")
+                if hit:
+                    out.append((c, fn, n, hit[0], hit[1]))
+    return out, n_attrs
+
+
+def report_denotation_container_mutations(idx: ProgramIndex, rep, prop: str, rule: str) -> None:
+    from .report import Finding
+
+    muts, n_attrs = find_denotation_container_mutations(idx)
+    rep.count(rule, n_attrs)
+    for c, fn, node, attr, what in muts:
+        who = f"{c.name}.{fn.name}"
+        rep.bad(rule, Finding(prop, rule, who, what,
+                              f"{who}: `{short(node, 70)}` mutates self.{attr}, a container the constructor builds from its arguments "
+                              "(directly or through a local alias that is not a copy): the EXISTING operator changes shape / "
+                              "parameters, so it denotes another matrix after the call than before", fn.loc(node)))
